@@ -62,21 +62,23 @@ Fixpoint walk (os : list op) (vs : EngRun.output) (deadline : option nat) : bool
   | _, _ => false
   end.
 
-(* texts: no tick raises; while the engine is in the error state (and Stop has not been pressed) the run is paused with
+(* texts: no tick raises; when the engine enters the error state (and Stop has not been pressed) the run is paused with
    Method Status Error and the failing instruction is marked failed; after Stop the engine is Stopped within `patience` ticks *)
-Fixpoint twalk (k : nat) (stop_at : option nat) (l : list ttick) : bool :=
+Fixpoint twalk (k : nat) (prev_error : bool) (stop_at : option nat) (l : list ttick) : bool :=
   match l with
   | [] => true
   | t :: l' =>
       negb (tt_raised t)
+      (* in the tick in which the error state is entered (later, a timed Pause that expires or an Unpause instruction may
+         legitimately resume the run) *)
       && (let stop_pressed := match stop_at with Some s => Nat.leb s k | None => false end in
-          if tt_error t && negb stop_pressed then tt_paused t && tt_status_error t && tt_failed t else true)
+          if tt_error t && negb prev_error && negb stop_pressed then tt_paused t && tt_status_error t && tt_failed t else true)
       && (match stop_at with Some s => if Nat.leb (s + patience) k then tt_stopped t else true | None => true end)
-      && twalk (Datatypes.S k) stop_at l'
+      && twalk (Datatypes.S k) (tt_error t) stop_at l'
   end.
 Definition holds_b (i : input) (o : output) : bool :=
   match i, o with
   | IEng x, OEng y => walk (snd x) y None
-  | IText c, OText l => twalk 0 (tc_stop_at c) l
+  | IText c, OText l => twalk 0 false (tc_stop_at c) l
   | _, _ => false
   end.
